@@ -12,6 +12,11 @@ def stress_values(rng, prim):
     if prim == "string":
         pool = [S.tok_num and ("S" + C.hexs(b)) for b in S.STRINGS]
         sets = [pool[:1], pool[3:5], pool, [pool[3], pool[2]], [pool[4]] * 3, [pool[5], pool[6], pool[7]]]
+        # long values around the lengths at which an implementation might cut a bound: 0xff as the last byte kept, all-0xff, long common prefixes
+        for c in (8, 16, 32, 64, 128, 256):
+            sets.append(["S" + C.hexs(b"x" * (c - 1) + b"\xff" + b"zz"), "S" + C.hexs(b"a")])
+        sets.append(["S" + C.hexs(b"\xff" * 300), "S" + C.hexs(b"\xff" * 299)])
+        sets.append(["S" + C.hexs(b"k" * 200), "S" + C.hexs(b"k" * 199 + b"y"), "S" + C.hexs(b"k" * 199)])
     elif prim == "bool":
         sets = [["I0"], ["I1"], ["I0", "I1", "I1"]]
     else:
@@ -55,12 +60,13 @@ def run(chk, st, tier):
                     for g in fields:
                         nullrec += ["N"] if g.rep == "opt" else (["L", "0"] if g.rep == "rep" else [S.gen_leaf(rng, g.typ, 0.3)])
                     recs = recs + [" ".join(nullrec)] * 2
+                long = f.typ == "string" and any(len(v) > 40 for v in vs)
                 for mx in (1, 2, 1000):
-                    ws.append(Fm.Workload(flat, rng.randrange(3), mx, recs + ["W"], "stress:" + f.typ))
+                    ws.append(Fm.Workload(flat, rng.randrange(3), mx, recs + ["W"], "stress:" + ("longstring" if long else f.typ)))
     ws += Fm.gen_workloads(rng, shapes, 60 if tier == "quick" else 1500, maxrecs=10, extreme=0.8)
     if tier == "quick":
         rng.shuffle(ws)
-        ws = ws[:420]
+        ws = [w for w in ws if w.tag == "stress:longstring"] + [w for w in ws if w.tag != "stress:longstring"][:420]
     res = Fm.exercise(chk, runner, shapes, ws, "C12", validate_level=0, read=False)
     Fm.correspondence(chk, res, what=("write",))
     ok = 0
@@ -88,7 +94,7 @@ def run(chk, st, tier):
     chk.coverage["input_distribution"] = dist
     for r in res[:2]:
         chk.sample({"workload": r["w"].describe(), "validator": (r.get("validate_raw") or "")[:120]})
-    chk.coverage["rule"] = ("per column of the flat 8x3 shape, stress multisets (all-negative, all-equal, type min/max, +-0, +-Inf, NaN incl. signaling, the former sentinel string, empty string, shared prefixes, bytes >= 0x80, only-null pages) "
+    chk.coverage["rule"] = ("per column of the flat 8x3 shape, stress multisets (all-negative, all-equal, type min/max, +-0, +-Inf, NaN incl. signaling, the former sentinel string, empty string, shared prefixes, bytes >= 0x80, values of 8..300 bytes with 0xff at offsets 7,15,..,255, only-null pages) "
                             "as 1-page, multi-page and page-size-1 files, plus random workloads over the portfolio with 80% extreme values; every page of the real file is decoded by the extracted validator and Stats.stats_sound is evaluated "
                             "on its header statistics; sink writes (which contain the statistics) also compared with the model byte for byte. distinct = distinct workloads.")
     chk.coverage["explanation"] = "page_stats_sound (coq/props/C12.v) is proved for all pages about the accumulator model; stats_sound is also the oracle applied to the real pages."
